@@ -118,4 +118,16 @@ TEXT.update({
            "DESIGN.md section 3 C11", "Bounded message shapes (see evidence). One known finding is listed in known_findings.txt (unnamed RCODEs).",
            "MIR symbolic execution + z3: parse/re-serialise/parse equality on symbolic inputs"),
 })
+TEXT.update({
+ "C14": _t("The pure handling pipeline is decided piece by piece on the real code: header peeks on every short datagram (Kani), Name::parse / "
+           "Packet::parse panic-freedom and termination (mirsym, bounded + inductive), answering a query and ingesting a response against stores "
+           "with hostile names (mirsym on the simple-mdns MIR), and every reply produced re-parses.", "DESIGN.md section 3 C14",
+           "Not covered by this technique: sockets, threads, lock poisoning as scheduling, tokio executor. Trie/HashMap/clock are models.",
+           "Kani/CBMC + MIR symbolic execution with z3 over the sequential handling functions"),
+ "C15": _t("Piecewise symbolic execution of the discovery chain on the real MIR: instance-name escaping round trip over all short Unicode strings, "
+           "attribute map <-> TXT losslessness, announced record kinds across the compressed wire, and the ingest filter (never own instance / "
+           "service name / non-subdomain; always the admissible records).", "DESIGN.md section 3 C15",
+           "from_records' HashSet<IpAddr>/port reconstruction and the socket transport are not executed symbolically.",
+           "MIR symbolic execution + z3, piecewise over the discovery chain"),
+})
 NA_REASON = {}
